@@ -1677,7 +1677,10 @@ class Sections:
                     k = r.random()
                     if k < 0.25:
                         pl = r.randbytes(r.choice([0, 5, 13, 269]))
-                        resp.append(frame_item(rt, rt.Frame(69, reqs[j].token, (), pl)))
+                        # (a final answer to the first block of a Block1 upload: a conforming peer that wants no more
+                        # of it says so with an error, 4.13 Request Entity Too Large; a success code without Block1
+                        # option there would mean it ignored a critical option)
+                        resp.append(frame_item(rt, rt.Frame(141 if j in block1 else 69, reqs[j].token, (), pl)))
                         answered[j] = pl
                     elif k < 0.6:
                         if j in block1:
@@ -1796,7 +1799,7 @@ class Sections:
                             rep.count("e2e_response_after_elective_option_not_delivered")
                         elif csm_first:
                             outcome = viol("e2e-client/response-not-delivered", "a response sent after the CSM and before %s did not complete its request" % (name or "the closing frame"), request=j, state=repr(f)[:200])
-                    elif bytes(f.result().payload) != answered[j] or int(f.result().code) != 69:
+                    elif bytes(f.result().payload) != answered[j] or int(f.result().code) != (141 if j in block1 else 69):
                         outcome = viol("e2e-client/response-differs", "the delivered response differs from the one sent", request=j)
                     continue
                 delivered = f.done() and not f.cancelled() and f.exception() is None
